@@ -2,6 +2,10 @@
 """Regenerates MANIFEST.json from the table below (kept next to the checks so the two cannot drift)."""
 import json
 CLAIMED = {
+ 'C08': ('the single function through which every formula result reaches a cell (Model::set_cells_with_result), for each kind of formula cell and a result that is any f64 or an array of up to 2x2 of any f64: afterwards no cell of the block stores NaN or an infinity (scalar and array paths)',
+         'outside: whether a built-in function can produce a non-finite value (the function library), numbers typed by the user or read from files; mechanism-level claim anchored at set_cells_with_result'),
+ 'C31': ("the spill write step (set_cells_with_result on a dynamic anchor, result 1x1..2x2 of arbitrary finite numbers, symbolic neighbours): either every cell of the m x n block holds its element (anchor records n x m, spill cells name the anchor) and nothing outside is written, or - exactly when a block cell holds user content or another formula's spill, or the block leaves the grid - the anchor shows #SPILL! and no neighbour changes; user content is never overwritten",
+         'outside: staleness across evaluation passes, undo, structural edits, paste (histories through the evaluator); results larger than 2x2'),
  'C11': ('panic-freedom, decided over every ASCII string up to the bound: the real formula lexer (A1 and R1C1 mode, en locale built by hand, en language with concrete boolean/error names) always reaches EOF; the number-format lexer/parser and date-format detector; column_to_number, parse_reference_a1/r1c1, is_valid_identifier, is_valid_column, quote_name. Every overflow / index / unwrap panic path is a query',
          'outside: the formula parser, formula completion, set_user_input, the number formatter (float to digits), non-ASCII text, strings longer than 3 (lexers) / 4 (helpers), other locales and languages'),
  'C30': ('style pools: any two styles from the symbolic attribute space interned one after the other read back field-for-field, the first still reads back after the second, different styles never share an index; any three number formats (built-in, custom, text) keep their own codes; two cells styled through Model::set_cell_style read back through get_style_for_cell',
@@ -43,7 +47,6 @@ NA = {
  'C05': 'evaluator (recursive evaluate_node_in_context over parsed trees, 495 built-ins, HashMap caches) has no bounded encoding within reach',
  'C06': 'needs the whole parse->evaluate pipeline plus f64 parse/print, which are uninterpreted in this encoding',
  'C07': 'quantifies over whole workbooks and evaluation passes; evaluator not encodable',
- 'C08': 'not claimed: set_cells_with_result needs a Model value (see C01); harness not built',
  'C09': 'tree->String->tree through the recursive-descent parser and lexer with language tables; symbolic trees of useful depth degenerate to enumeration',
  'C10': 'same pipeline as C09 across five language tables loaded from bitcode data',
  'C17': 'sheet rename/duplicate rewrite every stored formula through parser and printer',
@@ -54,7 +57,6 @@ NA = {
  'C24': 'zip + XML writer/reader over whole workbooks; I/O-bound byte streams of unbounded length',
  'C25': 'same reader on arbitrary bytes (zip inflate, XML tokenizer in third-party crates); loops grow with input',
  'C26': 'bitcode encode/decode of the whole workbook plus re-parse of every formula on load',
- 'C31': 'not claimed: needs Model::set_cells_with_result (see C08)',
  'C32': 'defined names are re-parsed by three different parsers on every structural change; parser-bound like C09/C17',
 }
 def main():
